@@ -35,7 +35,7 @@ pub(crate) mod kani_verif {
         }
         // used-leaf vector exactly as the contract of HssPrivateKey::from states it (c03_from_*): digit i of the counter,
         // plus one on the levels that have signed a child public key
-        let digits = private_key.compressed_used_leafs_indexes.to(&parameters);
+        let digits = crate::hss::reference_impl_private_key::kani_verif::contract_to(&private_key.compressed_used_leafs_indexes, &parameters);
         let levels = parameters.len();
         let mut k: HssPrivateKey<H> = Default::default();
         for (i, p) in parameters.iter().enumerate() {
